@@ -356,6 +356,10 @@ impl Script for C08Script {
                     "tablets-routing-v1".into(),
                     tablet_payload(-1000, 5000, &ids),
                 )];
+                // The traced execution carries all three body extensions at once.
+                if rq.tracing {
+                    env.warnings = vec!["tablet warning".into()];
+                }
             }
             _ => {}
         }
@@ -777,6 +781,25 @@ async fn main(plan: Plan) -> Outcome {
             }
         }
     }
+    // S3b: the same write traced: tracing id AND warnings in one frame.
+    m += 1;
+    {
+        let mut st = Statement::new(client::q_write_marker(m));
+        st.set_tracing(true);
+        if let Some(r) = step(&mut out, "write_traced", session.query_unpaged(st, ())).await {
+            if clean {
+                match r {
+                    Ok(qr) => {
+                        let w: Vec<String> = qr.warnings().map(|s| s.to_string()).collect();
+                        if w != vec!["scripted warning 1".to_string(), "second warning".to_string()] || qr.tracing_id().is_none() {
+                            out.violation("c08.roundtrip", format!("traced write: warnings decoded as {w:?}, tracing id {:?}", qr.tracing_id()));
+                        }
+                    }
+                    Err(e) => out.violation("c08.roundtrip", format!("clean traced write failed: {e}")),
+                }
+            }
+        }
+    }
     // S4: wide row through the dynamic value type.
     let expected: Vec<Vec<Option<scylla::value::CqlValue>>> = wide_rows()
         .iter()
@@ -890,10 +913,22 @@ async fn main(plan: Plan) -> Outcome {
     if let Some(Ok(p)) = step(&mut out, "prepare_tablets", session.prepare(TQ_SELECT)).await {
         for k in 0..3i64 {
             m += 1;
+            // The last one is traced: tracing id, warning and custom payload in one frame.
+            let mut p = p.clone();
+            p.set_tracing(k == 2);
             let r = step(&mut out, "execute_tablets", session.execute_unpaged(&p, (k, m as i64))).await;
             if clean {
-                if let Some(Err(e)) = r {
-                    out.violation("c08.roundtrip", format!("clean tablet execute failed: {e}"));
+                match r {
+                    Some(Err(e)) => out.violation("c08.roundtrip", format!("clean tablet execute failed: {e}")),
+                    Some(Ok(qr)) if k == 2 => {
+                        let w: Vec<String> = qr.warnings().map(|s| s.to_string()).collect();
+                        if qr.tracing_id().is_none() || (plan.tablets_ext && w != vec!["tablet warning".to_string()]) {
+                            out.violation("c08.roundtrip", format!("traced tablet execute: warnings {w:?}, tracing id {:?}", qr.tracing_id()));
+                        } else {
+                            out.count("all_extensions_equal", 1);
+                        }
+                    }
+                    _ => {}
                 }
             }
         }
@@ -1094,13 +1129,31 @@ fn fuzz_custom_type() -> String {
         // Deep nesting of the textual form (the string is limited to 65535 bytes).
         0 => {
             let d = [50usize, 500, 3000, 7000][tape::choose("c08:ct_deep", 4) as usize];
-            let mut t = String::new();
-            for _ in 0..d {
-                t.push_str("ListType(");
+            // One wrapper for the whole chain, or a seeded mix of them.
+            const WRAP: [(&str, &str); 7] = [
+                ("ListType(", ")"),
+                ("FrozenType(", ")"),
+                ("ReversedType(", ")"),
+                ("SetType(", ")"),
+                ("MapType(Int32Type,", ")"),
+                ("TupleType(", ")"),
+                ("VectorType(", ", 2)"),
+            ];
+            let which = tape::choose("c08:ct_deep_wrapper", WRAP.len() as u64 + 1) as usize;
+            let mut opens = String::new();
+            let mut closes: Vec<&str> = Vec::new();
+            for k in 0..d {
+                let (o, c) = if which < WRAP.len() { WRAP[which] } else { WRAP[(k * 7 + d) % WRAP.len()] };
+                if opens.len() + o.len() + c.len() * (closes.len() + 1) > 60_000 {
+                    break;
+                }
+                opens.push_str(o);
+                closes.push(c);
             }
+            let mut t = opens;
             t.push_str("Int32Type");
-            for _ in 0..d {
-                t.push(')');
+            for c in closes.iter().rev() {
+                t.push_str(c);
             }
             t
         }
